@@ -583,6 +583,10 @@ func judgeC12(rep *base.Report, p *runner.Prog, pk *packages.Package) {
 		if cl == "redeclared" || cl == "no-new-variables" {
 			fail("same-scope-duplicate/"+cl, e.Pos+": "+e.Msg)
 		}
+		if e.Kind == packages.ParseError || strings.Contains(e.Msg, "expected ") && strings.Contains(e.Msg, "found ") {
+			// the generated file does not even parse: an identifier position holds a keyword
+			fail("generated-file-does-not-parse", e.Pos+": "+e.Msg)
+		}
 	}
 	// package-level names declared by the user (outside generated files)
 	userLevel := map[string]string{}
